@@ -289,6 +289,11 @@ var Features = []Feature{
 		t := d.Table("t")
 		t.Checks = append(t.Checks, Check{Name: "ck_bs", Expr: "b <> 'x\\'"})
 	}},
+	// two unnamed checks on one table.
+	{Name: "check_two_unnamed", Apply: func(d *DB) {
+		t := d.Table("t")
+		t.Checks = append(t.Checks, Check{Expr: "id < 2000"}, Check{Expr: "id > -5"})
+	}},
 	{Name: "check_paren_literal", Apply: func(d *DB) {
 		t := d.Table("t")
 		t.Checks = append(t.Checks, Check{Name: "ck_b", Expr: "b <> ')'"})
